@@ -33,6 +33,58 @@ VARIANTS = {
 WRAP = ['-Wl,--wrap=malloc,--wrap=realloc,--wrap=free']
 
 
+# --- work budgets --------------------------------------------------------------------------------------------------------------
+# What a check explores is a pure function of (VERIF_SEED, tier): every job of a phase gets a fixed number of runs,
+#   runs(job) = rate[variant][job] * nominal seconds of the slice * slices per job * FACTOR,
+# where rate (runs per second of one worker among NOMINAL_WORKERS busy ones) was measured once on the reference sandbox and is
+# committed in driver/rates.json (`bin/check calibrate` rewrites it).  The wall clock is only a safety cap (CAP_FACTOR x the nominal
+# seconds): on a slower or loaded machine the same runs take longer; they are cut short, and the evidence says so, only past the cap.
+NOMINAL_WORKERS = 16
+FACTOR = 0.7
+CAP_FACTOR = 4.0
+DEFAULT_RATE = 150.0
+RATES_FILE = os.path.join(ROOT, 'driver', 'rates.json')
+_rates = None
+
+
+def rates():
+    global _rates
+    if _rates is None:
+        try:
+            _rates = json.load(open(RATES_FILE))
+        except (OSError, ValueError):
+            _rates = {}
+    return _rates
+
+
+def round2(n):
+    """Two significant digits (the committed run counts stay readable and stable against re-calibration noise)."""
+    n = int(n)
+    if n < 100:
+        return max(n, 1)
+    mag = 10 ** (len(str(n)) - 2)
+    return (n // mag) * mag
+
+
+def job_key(job):
+    return '%s/%s/%s' % job
+
+
+def planned_runs(variant, jobs, seconds):
+    """{job: number of runs} for one phase; depends only on constants, the committed rates and the nominal seconds:
+    every job gets an equal share of seconds x NOMINAL_WORKERS x FACTOR worker-seconds."""
+    share = seconds * NOMINAL_WORKERS / float(len(jobs)) * FACTOR
+    out, missing = {}, []
+    table = rates().get(variant, {})
+    for j in jobs:
+        r = table.get(job_key(j))
+        if r is None:
+            missing.append(job_key(j))
+            r = DEFAULT_RATE
+        out[j] = max(16, round2(r * share))
+    return out, missing
+
+
 class HarnessFault(Exception):
     pass
 
@@ -218,7 +270,9 @@ def merge_stats(total, st):
 
 
 class Search:
-    """Runs slices (engine, family, profile-or-enum) on a pool of worker processes until the time budget is used."""
+    """Runs slices (engine, family, profile-or-enum) on a pool of worker processes: a fixed number of runs per job (run indices
+    0..n-1 of the job, dealt to its slices by stride, so the set of runs does not depend on the worker count); `seconds` only
+    bounds the wall clock (CAP_FACTOR x)."""
 
     def __init__(self, binary, variant, seed, seconds, workers):
         self.binary, self.variant, self.seed, self.seconds, self.workers = binary, variant, seed, seconds, workers
@@ -227,18 +281,27 @@ class Search:
         self.lock = threading.Lock()
         self.harness_faults = []
         self.crashes = 0
+        self.planned = 0        # runs planned for this phase
+        self.completed = 0      # runs reported done by the workers
+        self.capped = []        # slices stopped by the wall-clock cap: (job key, done, planned)
+        self.uncalibrated = []
 
-    def _slice(self, job, budget):
-        engine, family, profile, start, stride = job
-        deadline = time.time() + budget
+    def _slice(self, job, deadline):
+        engine, family, profile, start, stride, count = job
+        done_runs = 0
         while True:
             remain = deadline - time.time()
+            left = count - done_runs
+            if left <= 0:
+                return
             if remain <= 0.2:
+                with self.lock:
+                    self.capped.append(('%s/%s/%s' % (engine, family, profile), done_runs, count))
                 return
             if profile == 'scenario':
-                cmd = [self.binary, 'enum', engine, family, str(self.seed), str(start), '1000000000', '%.1f' % remain, str(stride)]
+                cmd = [self.binary, 'enum', engine, family, str(self.seed), str(start), str(left), '%.1f' % remain, str(stride)]
             else:
-                cmd = [self.binary, 'run', engine, family, profile, str(self.seed), str(start), '1000000000', '%.1f' % remain, str(stride)]
+                cmd = [self.binary, 'run', engine, family, profile, str(self.seed), str(start), str(left), '%.1f' % remain, str(stride)]
             p = subprocess.Popen(cmd, stdout=subprocess.PIPE, stderr=subprocess.STDOUT, text=True, errors='replace')
             done = False
             crash = None
@@ -264,6 +327,14 @@ class Search:
                         continue
                     if line.startswith('DONE '):
                         done = True
+                        md = re.match(r'DONE runs=(\d+)', line)
+                        if md:
+                            n = int(md.group(1))
+                            with self.lock:
+                                self.completed += n
+                            if n < left:
+                                with self.lock:
+                                    self.capped.append(('%s/%s/%s' % (engine, family, profile), done_runs + n, count))
                         continue
                     mc = CRASH_RE.search(line)
                     if mc:
@@ -294,6 +365,10 @@ class Search:
                     self.crashes += 1
                 if run < 0:
                     return
+                n = (run - start) // stride + 1  # runs of this worker up to and including the one that died
+                done_runs += n
+                with self.lock:
+                    self.completed += n
                 start = run + stride
                 continue
             with self.lock:
@@ -304,15 +379,22 @@ class Search:
         """jobs: list of (engine, family, profile). Every job is split over the workers by stride."""
         if not jobs:
             return
+        plan, self.uncalibrated = planned_runs(self.variant, jobs, self.seconds)
+        # every job is dealt to `per` worker processes by stride; the slices are queued round-robin over the jobs, so that a run cut
+        # short by the wall-clock cap has covered every job to a similar extent
+        per = max(1, -(-4 * NOMINAL_WORKERS // len(jobs)))
         slices = []
-        per = max(1, self.workers // len(jobs))
-        for (engine, family, profile) in jobs:
-            for k in range(per):
-                slices.append((engine, family, profile, k, per))
-        waves = (len(slices) + self.workers - 1) // self.workers
-        budget = self.seconds / waves
+        for k in range(per):
+            for (engine, family, profile) in jobs:
+                n = plan[(engine, family, profile)]
+                pj = max(1, min(per, n // 8))
+                if k == 0:
+                    self.planned += n
+                if k < pj:
+                    slices.append((engine, family, profile, k, pj, (n - k + pj - 1) // pj))
+        deadline = time.time() + CAP_FACTOR * self.seconds
         with cf.ThreadPoolExecutor(self.workers) as ex:
-            list(ex.map(lambda j: self._slice(j, budget), slices))
+            list(ex.map(lambda j: self._slice(j, deadline), slices))
 
 
 # ----------------------------------------------------------------------------------------------- known findings
@@ -566,6 +648,10 @@ def aggregate_evidence(prop, spec, tier, seed, searches, wall, nviol, known, ext
         'probes': stats.get('probes', {}),
         'operations_by_kind': stats.get('op_kinds', {}),
         'fired_faults_by_operation': stats.get('fired_by_op', {}),
+        'budget': {'mode': 'fixed number of runs per job (driver/rates.json x nominal seconds x %g); the wall clock is only a cap (%gx nominal)' % (FACTOR, CAP_FACTOR),
+                   'planned_runs': sum(s.planned for s in searches), 'completed_runs': sum(s.completed for s in searches),
+                   'slices_cut_by_time_cap': sum(len(s.capped) for s in searches),
+                   'jobs_without_calibrated_rate': sorted(set(j for s in searches for j in s.uncalibrated))},
         'worker_crashes': sum(s.crashes for s in searches),
         'builds': [s.variant for s in searches],
         'components': {'real': ['all of /repo/include/amc/*.hpp (compiled into the harness TUs)', 'amc::BasicAllocatorWrapper and SimpleAllocator',
@@ -607,18 +693,7 @@ def sample_plans(binary, jobs, seed, n=3):
     return out
 
 
-def run_sim_check(prop, tier, seed, seconds_override=None):
-    spec = CHECKS[prop]
-    t0 = time.time()
-    phases = (spec['quick'] if isinstance(spec['quick'], list) else [spec['quick']]) if tier == 'quick' else spec['thorough']
-    if tier == 'quick' and os.environ.get('VERIF_QUICK_VARIANT'):
-        # self-tests: replace the sanitizer build by the plain one (same language standard), keep the other phases
-        phases = [((os.environ['VERIF_QUICK_VARIANT'] + ('14' if v.endswith('14') else '')) if v.startswith('asan') else v, secs) for (v, secs) in phases]
-    if seconds_override:
-        tot = float(sum(sec for (_, sec) in phases))
-        phases = [(v, max(3.0, seconds_override * sec / tot)) for (v, sec) in phases]
-    binaries = {}
-    searches = []
+def tier_jobs(spec, tier):
     jobs = spec['jobs']
     if tier == 'thorough' and spec.get('thorough_profile'):
         jobs = [(e, f, spec['thorough_profile'] if p != 'scenario' else p) for (e, f, p) in jobs]
@@ -628,13 +703,89 @@ def run_sim_check(prop, tier, seed, seconds_override=None):
         jobs = jobs + [(e, f, p + '_long') for (e, f, p) in jobs if p in LONG]
     if tier == 'thorough' and spec.get('thorough_profile_map'):
         jobs = [(e, f, spec['thorough_profile_map'].get(p, p)) for (e, f, p) in jobs]
+    return jobs
+
+
+def variant_jobs(jobs, variant):
+    # pre-C++17: no aligned operator new, so the standard containers the harness uses as range sources cannot hold the over-aligned element
+    return [j for j in jobs if j[0] == 'vec' and j[1] != 'Align_basic'] if VARIANTS[variant].get('vec_only') else jobs
+
+
+def tier_phases(spec, tier):
+    return (spec['quick'] if isinstance(spec['quick'], list) else [spec['quick']]) if tier == 'quick' else spec['thorough']
+
+
+def calibrate(seconds=5.0, only=None):
+    """Measures, per build variant, the rate (runs per second) of one worker on every job any check uses while NOMINAL_WORKERS
+    workers are busy, and writes driver/rates.json.  Only the duration of the checks depends on these numbers, never a verdict."""
+    need = {}
+    for prop, spec in CHECKS.items():
+        if 'jobs' not in spec:
+            continue
+        for tier in ('quick', 'thorough'):
+            for (variant, _) in tier_phases(spec, tier):
+                need.setdefault(variant, set()).update(variant_jobs(tier_jobs(spec, tier), variant))
+            if tier == 'quick':  # self-tests replace the sanitizer build of the quick tier by the plain one
+                for (variant, _) in tier_phases(spec, tier):
+                    if variant.startswith('asan'):
+                        v2 = 'plain' + ('14' if variant.endswith('14') else '')
+                        need.setdefault(v2, set()).update(variant_jobs(tier_jobs(spec, tier), v2))
+    table = dict(rates()) if only else {}
+    for variant in sorted(need):
+        if only and variant not in only:
+            continue
+        binary = build(variant)
+        jobs = sorted(need[variant])
+        t0 = time.time()
+
+        def one(job):
+            engine, family, profile = job
+            if profile == 'scenario':
+                cmd = [binary, 'enum', engine, family, '12345', '0', '1000000000', '%.1f' % seconds, '1']
+            else:
+                cmd = [binary, 'run', engine, family, profile, '12345', '0', '1000000000', '%.1f' % seconds, '1']
+            r = subprocess.run(cmd, stdout=subprocess.PIPE, stderr=subprocess.STDOUT, text=True, errors='replace')
+            m = re.search(r'^DONE runs=(\d+)', r.stdout, re.M)
+            ms = re.search(r'"secs":([0-9.eE+-]+)', r.stdout)
+            if not m or not ms:
+                return job, None
+            return job, int(m.group(1)) / max(float(ms.group(1)), 1e-3)
+
+        with cf.ThreadPoolExecutor(NOMINAL_WORKERS) as ex:
+            res = list(ex.map(one, jobs))
+        table[variant] = {}
+        for job, rate in res:
+            if rate is None:
+                log('calibrate: %s %s gave no rate (worker died); default used' % (variant, job_key(job)))
+                continue
+            table[variant][job_key(job)] = round(rate, 1)
+        log('[calibrate] %s: %d jobs in %.0fs' % (variant, len(jobs), time.time() - t0))
+    with open(RATES_FILE, 'w') as f:
+        json.dump(table, f, indent=0, sort_keys=True)
+        f.write('\n')
+    log('wrote ' + RATES_FILE)
+    return 0
+
+
+def run_sim_check(prop, tier, seed, seconds_override=None):
+    spec = CHECKS[prop]
+    t0 = time.time()
+    phases = tier_phases(spec, tier)
+    if tier == 'quick' and os.environ.get('VERIF_QUICK_VARIANT'):
+        # self-tests: replace the sanitizer build by the plain one (same language standard), keep the other phases
+        phases = [((os.environ['VERIF_QUICK_VARIANT'] + ('14' if v.endswith('14') else '')) if v.startswith('asan') else v, secs) for (v, secs) in phases]
+    if seconds_override:
+        tot = float(sum(sec for (_, sec) in phases))
+        phases = [(v, max(3.0, seconds_override * sec / tot)) for (v, sec) in phases]
+    binaries = {}
+    searches = []
+    jobs = tier_jobs(spec, tier)
     for (variant, seconds) in phases:
         binaries[variant] = build(variant)
     for (variant, seconds) in phases:
         workers = NPROC  # measured here: 16 sanitizer workers execute ~1.6x the runs of 8 on the 16 cores
         s = Search(binaries[variant], variant, seed, seconds, workers)
-        # pre-C++17: no aligned operator new, so the standard containers the harness uses as range sources cannot hold the over-aligned element
-        s.run([j for j in jobs if j[0] == 'vec' and j[1] != 'Align_basic'] if VARIANTS[variant].get('vec_only') else jobs)
+        s.run(variant_jobs(jobs, variant))
         searches.append(s)
     cands = [c for s in searches for c in s.cands]
     faults = [f for s in searches for f in s.harness_faults]
@@ -653,11 +804,17 @@ def run_sim_check(prop, tier, seed, seconds_override=None):
         log('  ' + what)
     for f in faults:
         log('HARNESS-FAULT ' + f)
+    for s in searches:
+        if s.capped:
+            log('NOTE time cap: phase %s stopped %d slice(s) before their planned runs (%d of %d runs done); this machine is more than %gx slower than the '
+                'reference the run counts were sized on' % (s.variant, len(s.capped), s.completed, s.planned, CAP_FACTOR / FACTOR))
+        if s.uncalibrated:
+            log('NOTE no calibrated rate for %d job(s) of phase %s (default used; run bin/check calibrate): %s' % (len(s.uncalibrated), s.variant, ' '.join(s.uncalibrated[:4])))
     wall = time.time() - t0
     extra = {'samples': sample_plans(binaries[phases[0][0]], jobs, seed)}
     ev = aggregate_evidence(prop, spec, tier, seed, searches, wall, len(violations), known, extra)
-    log('[%s] tier=%s seed=%d runs=%d ops=%d cells=%d violations=%d known=%d other-property-notes=%d wall=%.0fs' % (
-        prop, tier, seed, ev['coverage']['evaluations'], ev['coverage']['simulated_time']['operations'], ev['coverage']['distinct_nontrivial'],
+    log('[%s] tier=%s seed=%d runs=%d (planned %d) ops=%d cells=%d violations=%d known=%d other-property-notes=%d wall=%.0fs' % (
+        prop, tier, seed, ev['coverage']['evaluations'], sum(s.planned for s in searches), ev['coverage']['simulated_time']['operations'], ev['coverage']['distinct_nontrivial'],
         len(violations), len(known), len(others), wall))
     if violations:
         return 1
@@ -738,6 +895,8 @@ def main(argv):
                 else:
                     build(v)
             return 0
+        if cmd == 'calibrate':
+            return calibrate(float(rest[0]) if rest else 5.0, rest[1:] or None)
         if cmd == 'manifest':
             import manifestgen
             log('wrote ' + manifestgen.generate())
